@@ -184,7 +184,9 @@ META["C10"] = dict(
          "assigns are the WGSL offsets and its size is the WGSL size). encase's metadata is the fuel-free relation Encase.Meta (functional: Meta.det); the evaluator the check runs on real output, "
          "Encase.structMeta, is sound for it (structMeta_sound), whence C10_struct_exec / C10_struct_exec_offsets, whose conclusions the driver evaluates on the REAL structs of every struct in the "
          "domain (~1200 instances per quick run). The check ALSO writes every emitted ShaderType struct through the REAL encase::StorageBuffer with sentinel values and compares byte length and field "
-         "offsets with (a) the Lean transcription -- agreement on every struct validates Ext.Encase -- and (b) naga's WGSL layout; trailing runtime arrays (0/1/3 elements) are measured only. "
+         "offsets with (a) the Lean transcription -- agreement on every struct validates Ext.Encase -- and (b) naga's WGSL layout. Trailing runtime-sized arrays: C10_runtime (the last field is "
+         "#[size(runtime)] Vec<e>, e's encase metadata is the element type's WGSL (AlignOf, SizeOf), so for every element count the written length Encase.runtimeLen is the WGSL size); lengths "
+         "for 0/1/3 elements are measured with the real encase. "
          "Open known findings: @size/@align not forwarded, f64 unsupported by encase, builtin member dropped from dual-use structs.",
     design_ref="DESIGN.md section 5 (C10), 13.14",
     note="Trusts: Ext.Encase / Ext.WgslLayout transcriptions (validated per struct against real encase bytes and per module against naga).",
